@@ -32,7 +32,7 @@ Open Scope N_scope.
 Theorem receiver_contained :
   forall (f : fs) (root D : N) (dl merge : bool) (tmps : list bytes) (pks : list packet) (j : nat),
     wf D f -> (forall t, tmpname tmps t -> okname t) -> tmp_unused D f tmps ->
-    Forall (clean_packet tmps) pks ->
+    Forall (clean_packet tmps no_filter) pks ->
     outside_unchanged D f (recv_fs_prefix f root D dl merge tmps pks j).
 Proof. exact receiver_contained_proof. Qed.
 
